@@ -277,6 +277,15 @@ func genKey(rt *rapid.T, label string) []byte {
 }
 
 func genHexPath(rt *rapid.T, label string, min int) []byte {
+	if gen.Chance(rt, 12, label+"_long") {
+		// long paths: around the length of a hashed key (64) and far beyond (the library sets no limit)
+		n := gen.Pick(rt, []int{63, 64, 65, 100, 128, 200, 215, 216, 230, 247, 248, 255, 256, 300, 1000}, label+"_len")
+		b := make([]byte, n)
+		for i := range b {
+			b[i] = "0123456789abcdef"[gen.Uniform(rt, 0, 15, label+"_c")]
+		}
+		return b
+	}
 	return []byte(rapid.StringMatching(fmt.Sprintf("[0-9a-f]{%d,12}", min)).Draw(rt, label))
 }
 
